@@ -29,6 +29,10 @@ Consume ==
      IF e.ev = "reset"
      THEN /\ st' = TInit(e) /\ skipping' = FALSE /\ cs' = e.case /\ fails' = fails
      ELSE IF skipping THEN UNCHANGED <<st, skipping, fails, cs>>
+     ELSE IF e.ev = "crash"   \* the code under test killed the driver's worker process (fatal error, unrecoverable panic)
+          THEN /\ fails' = Append(fails, [case |-> cs, line |-> l, why |-> "crash"])
+               /\ skipping' = TRUE
+               /\ UNCHANGED <<st, cs>>
      ELSE IF TAllowed(st, e)
           THEN /\ st' = TStep(st, e) /\ UNCHANGED <<skipping, fails, cs>>
           ELSE /\ fails' = Append(fails, [case |-> cs, line |-> l, why |-> TWhy(st, e)])
